@@ -1,0 +1,31 @@
+//go:build verif
+
+package selection
+
+// Contracts for label selectors (property C40). Comment-only file: compiled
+// only under the "verif" build tag, contains no code. The "//@" lines are read
+// by govc.
+
+// Label selector semantics are those of the vendored Kubernetes label package
+// and are not modelled: whether a selector text is well formed and whether it
+// matches a label set are uninterpreted functions of the selector text and of
+// the label map (a label map is identified by its reference: label sets of
+// sessions are static). seltext(sel) is the text a selector was parsed from.
+//@ ufunc selvalid(s string) bool
+//@ ufunc seltext(sel int) string
+//@ ufunc labelmatch(s string, labels int) bool
+
+// Trusted: parsing writes no modelled memory; it succeeds exactly for well
+// formed texts and then yields a selector for that text.
+//@ func ParseLabelSelector
+//@   opaque
+//@   modifies
+//@   ensures (result1 == nil) == selvalid(selector)
+//@   ensures result1 == nil ==> result0 != nil && seltext(result0) == selector
+//@   ensures result1 != nil ==> result0 == nil
+
+// Trusted: matching is a function of the selector's text and the label set.
+//@ iface LabelSelector.Matches
+//@   params self, labels
+//@   pure
+//@   ensures result == labelmatch(seltext(self), labels)
